@@ -9,7 +9,9 @@ package benchunit
 import (
 	"fmt"
 	"math"
+	"math/big"
 	"os"
+	"strconv"
 	"strings"
 	"testing"
 	"unicode"
@@ -116,7 +118,181 @@ func TestVerifBounded(t *testing.T) {
 			}
 		}
 		fmt.Printf("BOUNDED-RESULT {\"cases\": %d, \"failures\": %d, \"bound\": \"all units of length <= %d over {n s M B / * - space x} plus 11 named units, x 8 values incl. 0, +-Inf, NaN, two passes (cold and cached)\", \"exhaustive\": true}\n", n, fails, maxLen)
+	case "scale":
+		verifScale(t, tier)
 	default:
 		t.Skip("unknown bounded check " + which)
 	}
+}
+
+var verifSI = map[string]float64{"T": 1e12, "G": 1e9, "M": 1e6, "k": 1e3, "": 1, "m": 1e-3, "µ": 1e-6, "n": 1e-9}
+var verifIEC = map[string]float64{"Ti": 1 << 40, "Gi": 1 << 30, "Mi": 1 << 20, "Ki": 1 << 10, "": 1}
+
+// verifCheckScaled: the printed mantissa times the prefix factor equals the
+// value to within half a unit of the last printed digit; with a prefix in range
+// the mantissa has four significant digits in [1,1000) / [1,1024).
+func verifCheckScaled(val float64, cls Class) error {
+	out := Scale(val, cls)
+	i := 0
+	for i < len(out) && (out[i] == '-' || out[i] == '.' || (out[i] >= '0' && out[i] <= '9')) {
+		i++
+	}
+	mant, prefix := out[:i], out[i:]
+	table := verifSI
+	top := 1000.0
+	if cls == Binary {
+		table = verifIEC
+		top = 1024
+	}
+	factor, ok := table[prefix]
+	if !ok {
+		return fmt.Errorf("Scale(%v, %v) = %q: unknown prefix %q", val, cls, out, prefix)
+	}
+	m, err := strconv.ParseFloat(mant, 64)
+	if err != nil {
+		return fmt.Errorf("Scale(%v, %v) = %q: bad mantissa", val, cls, out)
+	}
+	prec := 0
+	if d := strings.IndexByte(mant, '.'); d >= 0 {
+		prec = len(mant) - d - 1
+	}
+	// exact arithmetic: |m*factor - val| <= (1/2) 10^-prec factor  (+ 2 ulps of the quotient for the double rounding of val/factor)
+	bm, _ := new(big.Float).SetPrec(200).SetString(mant)
+	bf := new(big.Float).SetPrec(200).SetFloat64(factor)
+	diff := new(big.Float).SetPrec(200).Mul(bm, bf)
+	diff.Sub(diff, new(big.Float).SetPrec(200).SetFloat64(val))
+	diff.Abs(diff)
+	half := new(big.Float).SetPrec(200).SetFloat64(0.5 * math.Pow(10, -float64(prec)))
+	half.Mul(half, bf)
+	slack := new(big.Float).SetPrec(200).SetFloat64(math.Abs(val) * 4e-16)
+	half.Add(half, slack)
+	if diff.Cmp(half) > 0 {
+		return fmt.Errorf("Scale(%v, %v) = %q is off by more than half a unit of the last digit", val, cls, out)
+	}
+	a := math.Abs(val)
+	smallest, largest := math.Inf(1), 0.0
+	for _, f := range table {
+		smallest = math.Min(smallest, f)
+		largest = math.Max(largest, f)
+	}
+	am := math.Abs(m)
+	if a != 0 && a >= smallest*0.99995 && a < largest*top*0.99 {
+		// a prefix in range exists: four significant digits, mantissa in [1, top)
+		digits := len(strings.Replace(strings.TrimLeft(strings.TrimPrefix(mant, "-"), "0"), ".", "", 1))
+		if am < 1 || am >= top || digits < 4 || (digits != 4 && am < 1000) {
+			return fmt.Errorf("Scale(%v, %v) = %q: mantissa %v with %d significant digits, want 4 digits in [1,%v)", val, cls, out, am, digits, top)
+		}
+	} else if a != 0 && a >= smallest*1e-8 && a < smallest {
+		sig := len(strings.TrimLeft(strings.Replace(strings.TrimPrefix(mant, "-"), ".", "", 1), "0"))
+		if sig < 3 {
+			return fmt.Errorf("Scale(%v, %v) = %q has only %d significant digits", val, cls, out, sig)
+		}
+	}
+	return nil
+}
+
+func verifScale(t *testing.T, tier string) {
+	n, fails := 0, 0
+	bad := func(err error) {
+		fails++
+		if fails <= 12 {
+			t.Errorf("REPLAY-FAIL %v", err)
+		}
+	}
+	ulps := 40
+	if tier == "thorough" {
+		ulps = 400
+	}
+	around := func(x float64, cls Class) {
+		v := x
+		for i := 0; i < ulps; i++ {
+			v = math.Nextafter(v, 0)
+		}
+		for i := 0; i < 2*ulps+1; i++ {
+			n++
+			if err := verifCheckScaled(v, cls); err != nil {
+				bad(err)
+				return
+			}
+			if err := verifCheckScaled(-v, cls); err != nil {
+				bad(err)
+				return
+			}
+			v = math.Nextafter(v, math.Inf(1))
+		}
+	}
+	for _, f := range siFactors {
+		for _, th := range []float64{f.t100, f.t10, f.t1, f.factor, f.factor * 999.95, f.factor * 9.9995} {
+			around(th, Decimal)
+		}
+	}
+	for _, f := range iecFactors {
+		for _, th := range []float64{f.t100, f.t10, f.t1, f.factor, f.factor * 1023.95, f.factor * 999.95} {
+			around(th, Binary)
+		}
+	}
+	last := siFactors[len(siFactors)-1].factor
+	for _, sf := range sigfigs {
+		around(sf*last, Decimal)
+		around(sf, Binary)
+	}
+	// a logarithmic sweep
+	for e := -17.0; e < 15; e += 0.0137 {
+		n++
+		v := math.Pow(10, e)
+		if err := verifCheckScaled(v, Decimal); err != nil {
+			bad(err)
+		}
+		if v >= 1e-8 {
+			if err := verifCheckScaled(v, Binary); err != nil {
+				bad(err)
+			}
+		}
+	}
+	// named boundary cases
+	for _, tc := range []struct {
+		v    float64
+		cls  Class
+		want string
+	}{{999.95, Decimal, "1.000k"}, {999.94, Decimal, "999.9"}, {0, Decimal, "0.000"}, {1023.95, Binary, "1.000Ki"}, {2048, Binary, "2.000Ki"}, {2048, Decimal, "2.048k"}, {1, Decimal, "1.000"}} {
+		n++
+		if got := Scale(tc.v, tc.cls); got != tc.want {
+			bad(fmt.Errorf("Scale(%v, %v) = %q, want %q", tc.v, tc.cls, got, tc.want))
+		}
+	}
+	// a shared scale is the one of the smallest non-zero magnitude
+	sets := [][]float64{{1.5, -2500}, {-2500, 1.5}, {2500, -1.5}, {0, 3e6, 2e3}, {0, 0}, {-5e-7, 4, 1e9}, {1e9, -1e3, 0, 1e6}}
+	for _, vals := range sets {
+		n++
+		min := 0.0
+		for _, v := range vals {
+			if a := math.Abs(v); a != 0 && (min == 0 || a < min) {
+				min = a
+			}
+		}
+		for _, cls := range []Class{Decimal, Binary} {
+			if got, want := CommonScale(vals, cls), CommonScale([]float64{min}, cls); got != want {
+				bad(fmt.Errorf("CommonScale(%v, %v) = %+v, the scale of the smallest non-zero magnitude %v is %+v", vals, cls, got, min, want))
+			}
+		}
+	}
+	// a unit is binary exactly when bytes appear in its numerator
+	for u, want := range map[string]Class{"B": Binary, "MB/s": Binary, "bytes": Binary, "B/op": Binary, "sec/MB": Decimal, "op/bytes": Decimal, "ns/B": Decimal,
+		"B / s": Binary, "bytes / op": Binary, "disk B/sec": Binary, "B ": Binary, " B": Binary, "sec/op": Decimal, "MB*sec": Binary, "sec*B/op": Binary, "op/sec*B": Binary,
+		"op/B*MB": Binary, "heap-B": Binary, "Bytes": Decimal, "KB": Decimal, "": Decimal} {
+		n++
+		if got := ClassOf(u); got != want {
+			bad(fmt.Errorf("ClassOf(%q) = %v, want %v", u, got, want))
+		}
+	}
+	// the no-op scale prints the shortest decimal that reads back to the same float
+	for _, v := range []float64{0, 1, 0.1, 1.0 / 3, 1e21, 1e-7, 123456789.123, 5e-324, math.MaxFloat64, -2.5} {
+		n++
+		out := NoOpScaler.Format(v)
+		back, err := strconv.ParseFloat(out, 64)
+		if err != nil || back != v || out != strconv.FormatFloat(v, 'f', -1, 64) {
+			bad(fmt.Errorf("NoOpScaler.Format(%v) = %q", v, out))
+		}
+	}
+	fmt.Printf("BOUNDED-RESULT {\"cases\": %d, \"failures\": %d, \"bound\": \"Scale at +-%d ulps around every threshold, factor and rounding boundary of both classes and every sub-prefix threshold (both signs), a log sweep 1e-17..1e15, named boundary cases, shared scales of mixed-sign sets, 21 unit class cases, the no-op scale on 10 values; exact decimal arithmetic for the half-unit bound\", \"exhaustive\": false}\n", n, fails, ulps)
 }
